@@ -123,7 +123,7 @@ def _cause_nodes(loop: Any, which: str) -> List[int]:
 def rule_guards(rep: Report, all_loops: List[Any], repo: Repo) -> None:
     rep.rule('C01.GUARDS', 'the must-path-conditions at each optional event / halt, normalised to integer '
              'intervals in (w, L), equal the reference: output f in [2w,2w+1] with bit=(f==2w+1); input '
-             'ip in (3w+L+1-2w, 3w+L+1]; halt j==ip and not ip<=f<ip+2w; null j<2w', 30)
+             'ip in (3w+L+1-2w, 3w+L+1], stored at 3w+L+1; halt j==ip and not ip<=f<ip+2w; null j<2w', 36)
     PY_TERM = {'LOOPING': 'Looping', 'NULL_IP': 'NullIP'}
     for loop in all_loops:
         is_c = isinstance(loop, CLoop)
@@ -152,6 +152,12 @@ def rule_guards(rep: Report, all_loops: List[Any], repo: Repo) -> None:
                           expected=f'{L.roles[role]} in [{lx.lin_show(ref[0])}, {lx.lin_show(ref[1])}]')
                 if evname == 'OUTPUT':
                     _check_output_bit(rep, L, nid, nm)
+            if evname == 'INPUT':
+                stores = event_nodes(L, 'INPUT_STORE')
+                if not stores:
+                    raise AnalysisError(f'{nm}: no INPUT_STORE site found')
+                for nid in stores:
+                    _check_input_addr(rep, L, nid, nm)
         # halts
         for which, ref_name in (('LOOPING', 'halt'), ('NULL_IP', 'null')):
             nodes = _cause_nodes(loop, which if is_c else PY_TERM[which])
@@ -228,6 +234,21 @@ def _self_flip_exception(loop: Any, nid: int, IN: Dict[int, Any]) -> Tuple[Optio
                 res = iv
                 used.append(lx.show(c))
     return res, used
+
+
+def _check_input_addr(rep: Report, L: Any, nid: int, nm: str) -> None:
+    """the consumed input bit is stored at bit address 3w + #w."""
+    node = L.g.nodes[nid]
+    found = None
+    if isinstance(L, CLoop):
+        for c in [x for x in walk(node.ast) if x.get('kind') == 'CallExpr' and callee(x) == 'mem_write_bit']:
+            found = to_lin(c_ir(call_args(c)[1], L.cu.src_of), L.env)
+    else:
+        for c in [x for x in ast.walk(node.ast) if isinstance(x, ast.Call)]:
+            if L._call_name(c) == 'mem.write_bit' and c.args:
+                found = to_lin(py_ir(c.args[0]), L.env)
+    rep.check(found is not None and lx.lin_eq(found, M.INPUT_ADDR), 'C01.GUARDS', f'{nm}:INPUT_ADDR',
+              f'input bit stored at {lx.lin_show(found)}', _site(L, nid), expected='3*w + L + 1  (3w + #w)')
 
 
 def _check_output_bit(rep: Report, L: Any, nid: int, nm: str) -> None:
